@@ -693,7 +693,7 @@ pub fn run(tier: Tier, seed: u64, only: Option<String>) -> i32 {
     ];
     rep.required_clauses = vec!["recv_probe_returns", "tracer_survives_hostile_datagrams", "accessors_never_panic"];
     let cfgs = configs();
-    let shards = tier.pick(1, 4);
+    let shards = tier.pick(3, 8);
     let n1 = cfgs.len() * shards;
     let n2 = tier.pick(128, 2_000);
     let n3 = tier.pick(16, 64);
